@@ -260,6 +260,18 @@ def judge(case: Dict[str, Any], res: Any) -> None:
                 raise Violation("no_goaway", "connection with a finished stream closed without "
                                 "telling the peer to go away", **ptag)
 
+    # every request taken on is accounted for in the access log exactly once, also when it is
+    # cut short by the end of the grace period (C03's count, under shutdown)
+    access = [e for e in res.log.events if e["kind"] == "access"]
+    for i in res.instances:
+        if i.scope.get("type") == "lifespan":
+            continue
+        n = sum(1 for e in access if e["scope_id"] == id(i.scope))
+        if n != 1:
+            raise Violation("access_record_count", f"{i.scope.get('type')} {i.scope.get('path')} "
+                            f"(started t={i.start_t}, ended {i.exit} at t={i.exit_t}): {n} access "
+                            f"records; trigger at t={t0}, graceful {g}", **tag, count=n,
+                            scope=i.scope.get("type"), exit=str(i.exit))
 
 def run_case(case: Dict[str, Any]) -> CaseInfo:
     cfg: Dict[str, Any] = {"graceful_timeout": case["graceful"],
